@@ -322,6 +322,10 @@ func c14EndToEnd(c *caseCtx) {
 	}
 	// the declared valuesRange of a criterion of the request is the range in force (it comes first)
 	for _, cs := range g.crits {
+		if cr, ok := s.crit(cs.id); ok && cr.Cost != cs.cost {
+			c.violate("levels-declared-type", fmt.Sprintf("criterion %s is declared cost=%v; when the levels are generated it is cost=%v (the worst end is the other one)", cs.id, cs.cost, cr.Cost), M{"request": g.M})
+			return
+		}
 		if cr, ok := s.crit(cs.id); ok && (cr.HasRng != cs.hasRng || (cs.hasRng && (cr.Lo != cs.lo || cr.Hi != cs.hi))) {
 			c.violate("levels-declared-range", fmt.Sprintf("criterion %s declares the range %v [%v,%v]; the range in force when the levels are generated is %v [%v,%v]", cs.id, cs.hasRng, cs.lo, cs.hi, cr.HasRng, cr.Lo, cr.Hi), M{"request": g.M})
 			return
